@@ -1,176 +1,40 @@
 package kit
 
 import (
-	"bytes"
 	"encoding/base64"
-	"encoding/json"
 	"fmt"
-	"strconv"
 	"strings"
 
 	"pgregory.net/rapid"
+
+	"verif/harness/memo"
 )
 
-// A JSON tree that keeps member order and can hold duplicate keys and raw (even invalid) text,
-// so that structural mutations of a valid memo can be written back out exactly.
+// The JSON tree, its parser/printer and the well-formedness predicate live in the light package
+// memo (it does not link the application, so that it can also be used by the native fuzz
+// target); kit re-exports them.
 
-type jkind int
+type (
+	JV      = memo.JV
+	JKV     = memo.JKV
+	Verdict = memo.Verdict
+)
 
 const (
-	jObj jkind = iota
-	jArr
-	jStr
-	jRaw // number, true, false, null, or arbitrary raw text
+	WellFormed = memo.WellFormed
+	Malformed  = memo.Malformed
+	Undecided  = memo.Undecided
 )
 
-type JV struct {
-	Kind jkind
-	Obj  []JKV
-	Arr  []*JV
-	Str  string // jStr: the string's bytes (may be invalid UTF-8); jRaw: literal text
-}
-
-type JKV struct {
-	K string
-	V *JV
-}
-
-func JRaw(s string) *JV { return &JV{Kind: jRaw, Str: s} }
-func JStr(s string) *JV { return &JV{Kind: jStr, Str: s} }
-func JNull() *JV        { return JRaw("null") }
-
-func ParseJSON(s string) (*JV, error) {
-	dec := json.NewDecoder(strings.NewReader(s))
-	dec.UseNumber()
-	v, err := parseValue(dec)
-	if err != nil {
-		return nil, err
-	}
-	if dec.More() {
-		return nil, fmt.Errorf("trailing data")
-	}
-	return v, nil
-}
-
-func parseValue(dec *json.Decoder) (*JV, error) {
-	tok, err := dec.Token()
-	if err != nil {
-		return nil, err
-	}
-	switch x := tok.(type) {
-	case json.Delim:
-		switch x {
-		case '{':
-			o := &JV{Kind: jObj}
-			for dec.More() {
-				kt, err := dec.Token()
-				if err != nil {
-					return nil, err
-				}
-				k, ok := kt.(string)
-				if !ok {
-					return nil, fmt.Errorf("non-string key")
-				}
-				v, err := parseValue(dec)
-				if err != nil {
-					return nil, err
-				}
-				o.Obj = append(o.Obj, JKV{k, v})
-			}
-			if _, err := dec.Token(); err != nil {
-				return nil, err
-			}
-			return o, nil
-		case '[':
-			a := &JV{Kind: jArr}
-			for dec.More() {
-				v, err := parseValue(dec)
-				if err != nil {
-					return nil, err
-				}
-				a.Arr = append(a.Arr, v)
-			}
-			if _, err := dec.Token(); err != nil {
-				return nil, err
-			}
-			return a, nil
-		}
-		return nil, fmt.Errorf("unexpected delimiter %v", x)
-	case string:
-		return JStr(x), nil
-	case json.Number:
-		return JRaw(x.String()), nil
-	case bool:
-		return JRaw(strconv.FormatBool(x)), nil
-	case nil:
-		return JNull(), nil
-	}
-	return nil, fmt.Errorf("unexpected token %v", tok)
-}
-
-func (v *JV) String() string {
-	var b bytes.Buffer
-	v.write(&b)
-	return b.String()
-}
-
-func writeJSONString(b *bytes.Buffer, s string) {
-	// Escape the minimum so that invalid UTF-8 bytes survive verbatim.
-	b.WriteByte('"')
-	for i := 0; i < len(s); i++ {
-		c := s[i]
-		switch {
-		case c == '"' || c == '\\':
-			b.WriteByte('\\')
-			b.WriteByte(c)
-		case c < 0x20:
-			fmt.Fprintf(b, "\\u%04x", c)
-		default:
-			b.WriteByte(c)
-		}
-	}
-	b.WriteByte('"')
-}
-
-func (v *JV) write(b *bytes.Buffer) {
-	switch v.Kind {
-	case jObj:
-		b.WriteByte('{')
-		for i, kv := range v.Obj {
-			if i > 0 {
-				b.WriteByte(',')
-			}
-			writeJSONString(b, kv.K)
-			b.WriteByte(':')
-			kv.V.write(b)
-		}
-		b.WriteByte('}')
-	case jArr:
-		b.WriteByte('[')
-		for i, e := range v.Arr {
-			if i > 0 {
-				b.WriteByte(',')
-			}
-			e.write(b)
-		}
-		b.WriteByte(']')
-	case jStr:
-		writeJSONString(b, v.Str)
-	default:
-		b.WriteString(v.Str)
-	}
-}
-
-func (v *JV) Clone() *JV {
-	c := &JV{Kind: v.Kind, Str: v.Str}
-	for _, kv := range v.Obj {
-		c.Obj = append(c.Obj, JKV{kv.K, kv.V.Clone()})
-	}
-	for _, e := range v.Arr {
-		c.Arr = append(c.Arr, e.Clone())
-	}
-	return c
-}
+func JRaw(s string) *JV                         { return memo.JRaw(s) }
+func JStr(s string) *JV                         { return memo.JStr(s) }
+func JNull() *JV                                { return memo.JNull() }
+func ParseJSON(s string) (*JV, error)           { return memo.ParseJSON(s) }
+func WellFormedMemo(s string) (Verdict, string) { return memo.WellFormedMemo(s) }
+func URLCCTP() string                           { return memo.URLCCTP() }
+func URLHyp() string                            { return memo.URLHyp() }
+func URLInternal() string                       { return memo.URLInternal() }
+func URLFee() string                            { return memo.URLFee() }
 
 // node is a position in the tree: the value plus how to replace or delete it in its parent.
 type node struct {
@@ -184,11 +48,11 @@ type node struct {
 func collect(v *JV, path string, parent *JV, index int, key string, out *[]node) {
 	*out = append(*out, node{path, v, parent, index, key})
 	switch v.Kind {
-	case jObj:
+	case memo.JObj:
 		for i, kv := range v.Obj {
 			collect(kv.V, path+"/"+kv.K, v, i, kv.K, out)
 		}
-	case jArr:
+	case memo.JArr:
 		for i, e := range v.Arr {
 			collect(e, fmt.Sprintf("%s/%d", path, i), v, i, "", out)
 		}
@@ -200,7 +64,7 @@ func (n node) replace(nv *JV) {
 		*n.v = *nv
 		return
 	}
-	if n.parent.Kind == jObj {
+	if n.parent.Kind == memo.JObj {
 		n.parent.Obj[n.index].V = nv
 	} else {
 		n.parent.Arr[n.index] = nv
@@ -211,7 +75,7 @@ func (n node) remove() {
 	if n.parent == nil {
 		return
 	}
-	if n.parent.Kind == jObj {
+	if n.parent.Kind == memo.JObj {
 		n.parent.Obj = append(append([]JKV{}, n.parent.Obj[:n.index]...), n.parent.Obj[n.index+1:]...)
 	} else {
 		n.parent.Arr = append(append([]*JV{}, n.parent.Arr[:n.index]...), n.parent.Arr[n.index+1:]...)
@@ -238,7 +102,7 @@ var hostileStrings = []string{
 }
 
 var typeURLs = []string{
-	urlCCTP, urlHyp, urlInternal, urlFee,
+	memo.URLCCTP(), memo.URLHyp(), memo.URLInternal(), memo.URLFee(),
 	"/noble.orbiter.controller.action.v1.FeeAttributes",
 	"/noble.orbiter.core.v1.Payload",
 	"/noble.orbiter.core.v1.Forwarding",
@@ -290,14 +154,14 @@ func Mutate(t *rapid.T, root *JV) Mutation {
 
 	kinds := []string{"null", "wrong-type", "delete", "hostile-string", "hostile-number"}
 	switch n.v.Kind {
-	case jObj:
+	case memo.JObj:
 		kinds = append(kinds, "unknown-field", "unknown-field", "dup-key", "dup-key-other", "empty-object", "reorder")
-	case jArr:
+	case memo.JArr:
 		kinds = append(kinds, "append-null", "append-null", "elem-null", "dup-elem", "empty-array", "append-wrong")
-	case jStr:
+	case memo.JString:
 		kinds = append(kinds, "byte-field", "byte-field", "invalid-utf8", "long-string")
 	}
-	if n.v.Kind == jObj {
+	if n.v.Kind == memo.JObj {
 		// a fee info: set the other member of its fee-type oneof as well
 		for _, kv := range n.v.Obj {
 			if kv.K == "basis_points" || kv.K == "amount" || kv.K == "basisPoints" {
@@ -426,7 +290,7 @@ func Mutate(t *rapid.T, root *JV) Mutation {
 		}
 	case "root-wrap-array":
 		c := n.v.Clone()
-		n.replace(&JV{Kind: jArr, Arr: []*JV{c}})
+		n.replace(&JV{Kind: memo.JArr, Arr: []*JV{c}})
 	case "root-null":
 		n.replace(JRaw(pick(t, "mut/rn", []string{"null", `"orbiter"`, "1", "[]", `{"orbiter":null}`, `{"orbiter":{}}`, `{"orbiter":[]}`, `{"orbiter":"x"}`, `{"orbiter":1}`})))
 	case "dup-root":
@@ -452,7 +316,7 @@ func MutateTargeted(t *rapid.T, root *JV) Mutation {
 	case "unknown-field":
 		var objs []node
 		for _, n := range nodes {
-			if n.v.Kind == jObj && n.parent != nil {
+			if n.v.Kind == memo.JObj && n.parent != nil {
 				objs = append(objs, n)
 			}
 		}
@@ -478,9 +342,9 @@ func MutateTargeted(t *rapid.T, root *JV) Mutation {
 		inAction := len(n.path) > 20 && n.path[:20] == "/orbiter/pre_actions"
 		var options []string
 		if inAction {
-			options = []string{urlCCTP, urlHyp, urlInternal, "/does.not.Exist", "/cosmos.bank.v1beta1.MsgSend", "/noble.orbiter.core.v1.Payload"}
+			options = []string{memo.URLCCTP(), memo.URLHyp(), memo.URLInternal(), "/does.not.Exist", "/cosmos.bank.v1beta1.MsgSend", "/noble.orbiter.core.v1.Payload"}
 		} else {
-			options = []string{urlFee, "/does.not.Exist", "/cosmos.bank.v1beta1.MsgSend", "/noble.orbiter.core.v1.Forwarding"}
+			options = []string{memo.URLFee(), "/does.not.Exist", "/cosmos.bank.v1beta1.MsgSend", "/noble.orbiter.core.v1.Forwarding"}
 		}
 		n.replace(JStr(Pick(t, "tm/newurl", options)))
 		return Mutation{Kind: "type-url", Path: n.path}
@@ -496,30 +360,30 @@ func HostileActionList(t *rapid.T, root *JV) {
 			orb = kv.V
 		}
 	}
-	if orb == nil || orb.Kind != jObj {
+	if orb == nil || orb.Kind != memo.JObj {
 		return
 	}
 	n := 2 + uniform(t, "hal/n", 3)
-	list := &JV{Kind: jArr}
+	list := &JV{Kind: memo.JArr}
 	for i := 0; i < n; i++ {
 		l := fmt.Sprintf("hal/%d", i)
-		a := &JV{Kind: jObj}
+		a := &JV{Kind: memo.JObj}
 		id := Pick(t, l+"/id", []string{`"ACTION_FEE"`, `"ACTION_SWAP"`, `1`, `2`, `0`, `3`, `7`, `8`, `-1`, `"ACTION_UNSUPPORTED"`, `99`})
 		if !Chance(t, l+"/noid", 10) {
 			a.Obj = append(a.Obj, JKV{"id", JRaw(id)})
 		}
 		switch Pick(t, l+"/attr", []string{"fee", "fee", "absent", "null", "wrong-type", "empty-fee", "bad-fee"}) {
 		case "fee":
-			a.Obj = append(a.Obj, JKV{"attributes", JRaw(`{"@type":"` + urlFee + `","fees_info":[{"recipient":"noble1nnydkwkkm05nqjl4fn6d2k4p2t0kpgl37mlt7v","basis_points":{"value":10}}]}`)})
+			a.Obj = append(a.Obj, JKV{"attributes", JRaw(`{"@type":"` + memo.URLFee() + `","fees_info":[{"recipient":"noble1nnydkwkkm05nqjl4fn6d2k4p2t0kpgl37mlt7v","basis_points":{"value":10}}]}`)})
 		case "absent":
 		case "null":
 			a.Obj = append(a.Obj, JKV{"attributes", JNull()})
 		case "wrong-type":
-			a.Obj = append(a.Obj, JKV{"attributes", JRaw(`{"@type":"` + urlInternal + `","recipient":"noble1nnydkwkkm05nqjl4fn6d2k4p2t0kpgl37mlt7v"}`)})
+			a.Obj = append(a.Obj, JKV{"attributes", JRaw(`{"@type":"` + memo.URLInternal() + `","recipient":"noble1nnydkwkkm05nqjl4fn6d2k4p2t0kpgl37mlt7v"}`)})
 		case "empty-fee":
-			a.Obj = append(a.Obj, JKV{"attributes", JRaw(`{"@type":"` + urlFee + `"}`)})
+			a.Obj = append(a.Obj, JKV{"attributes", JRaw(`{"@type":"` + memo.URLFee() + `"}`)})
 		case "bad-fee":
-			a.Obj = append(a.Obj, JKV{"attributes", JRaw(`{"@type":"` + urlFee + `","fees_info":[{"recipient":"x","basis_points":{"value":0}},{"recipient":"","amount":{"value":"-1"}}]}`)})
+			a.Obj = append(a.Obj, JKV{"attributes", JRaw(`{"@type":"` + memo.URLFee() + `","fees_info":[{"recipient":"x","basis_points":{"value":0}},{"recipient":"","amount":{"value":"-1"}}]}`)})
 		}
 		list.Arr = append(list.Arr, a)
 	}
